@@ -180,7 +180,30 @@ def _simple(prop, tier, seed, jobs, limit):
     return run_hint_family(prop, tier, seed, jobs, limit)
 
 
+def _c18(prop, tier, seed, jobs, limit):
+    from . import c18
+    return run_hint_family(prop, tier, seed, jobs, limit, run_case=c18.run_case, cases=c18.cases(tier, seed),
+                           funcs=FUNCS_ENCODED['common'] + ['beartype._conf._confoverrides',
+                                                            'beartype._check.convert._reduce.redmain:_reduce_hint_overrides'],
+                           extra_assumptions=['hand rewriting is done by bearverif/c18.py:rewrite (independent of beartype)'])
+
+
+def _c12(prop, tier, seed, jobs, limit):
+    from . import c12
+    rc = run_hint_family(prop, tier, seed, jobs, limit, run_case=c12.run_case, cases=c12.cases(tier, seed),
+                         funcs=['beartype.vale._core._valecore', 'beartype.vale._core._valecorebinary',
+                                'beartype.vale._core._valecoreunary', 'beartype.vale._is._valeis',
+                                'beartype.vale._is._valeisobj', 'beartype.vale._is._valeisoper',
+                                'beartype.vale._is._valeistype', 'beartype.vale._util._valeutilsnip',
+                                'beartype._check.code.codemain:make_check_expr'],
+                         extra_assumptions=['Is[f]: f is an uninterpreted predicate (value-determined on scalars)',
+                                            'attribute names restricted to n, m, k; only UH/UA/UB instances may carry them'])
+    return rc
+
+
 RUNNERS = {
+    'C12': _c12,
+    'C18': _c18,
     'C01': _simple,
     'C02': _simple,
     'C03': _simple,
